@@ -16,6 +16,13 @@ Record view := {
   v_error : option nat }.            (* the node of the recorded error *)
 Definition output := list view.
 
+(* the method tree is well formed: child lists and parent pointers agree and the root has no parent (hypothesis of the
+   order theorems, evaluated by the monitors on every method) *)
+Definition wf_b (p : program) : bool :=
+  forallb (fun q => forallb (fun c => match n_parent (nd p c) with Some q' => Nat.eqb q' q | None => false end) (n_children (nd p q)))
+          (seq 0 (length p))
+  && match n_parent (nd p 0) with None => true | Some _ => false end.
+
 Definition fuel_of (p : program) : nat := 40 + 12 * length p.
 Definition rounds_of (p : program) : nat := 20 + 6 * length p.
 
